@@ -63,6 +63,11 @@ pub fn alphabet(m: &FormatModel, o: &OptModel, with_sep: bool) -> Vec<u8> {
     if top.is_ascii_uppercase() {
         a.push(top.to_ascii_lowercase());
     }
+    // mixed radices: the largest exponent digit (an exponent digit need not be a mantissa digit and vice versa)
+    let xr = m.exponent_radix().max(2);
+    if xr != r {
+        a.push(digit_char((xr - 1) as u8));
+    }
     a.push(o.decimal_point);
     a.push(o.exponent);
     if o.exponent.is_ascii_alphabetic() {
